@@ -18,8 +18,9 @@ RULE = (
     "unlisted labels) and an injective assignment (time, seg id) -> node id in one of the modes "
     "identity / permutation of the label values (cycles) / ids drawn from the label pool "
     "(collisions) / fresh, optionally containing id 0. Two entry points: relabel_segmentation(...) "
-    "on numpy and dask input, and tracks_from_df(df with seg_id, seg) with computed or given "
-    "positions. Oracle: expected = zeros; expected[t][src[t]==seg_id] = node_id (+1 for all ids "
+    "on numpy and dask input, tracks_from_df(df with seg_id, seg) with computed or given "
+    "positions, and the builder with the segmentation given as a directory of per-frame TIFFs "
+    "(9-13 frames, padded or unpadded numbers). Oracle: expected = zeros; expected[t][src[t]==seg_id] = node_id (+1 for all ids "
     "when 0 is an id); result == expected element-wise; graph nodes and edges shifted the same "
     "way; input array unchanged. Non-trivial = assignment with a collision (a node id equals a "
     "label value that belongs to another node or to an unlisted label in some frame), a reused "
@@ -29,7 +30,7 @@ ASSUMPTIONS = ["seg ids are positive; every listed (time, seg id) occurs in the 
                "node ids <= ~10**6 (skimage.regionprops allocates per label value; ids near 2**31 exhaust memory)",
                "dtype of the relabelled array is unconstrained"]
 REQUIRED_CLASSES = {t: ["c13:id0", "c13:unlisted", "c13:collision", "c13:reused_label", "c13:identity",
-                        "c13:ids_exceed_label_dtype",
+                        "c13:ids_exceed_label_dtype", "c13:tiff_dir_unpadded_over_10_frames",
                         "part:from_df"] for t in ("quick", "thorough")}
 
 POOL = [1, 2, 3, 4, 5, 6, 9, 200]
@@ -259,9 +260,72 @@ def probe_from_df(inp) -> ProbeResult:
     return res
 
 
+# ---- segmentation given as a directory of per-frame TIFF files ---------------------------------
+@st.composite
+def tiff_inputs(draw):
+    nt = draw(st.integers(9, 13))
+    spatial = draw(st.sampled_from([(3, 4), (2, 3, 3)]))
+    frames, nodes = [], []
+    for t in range(nt):
+        lab = draw(st.sampled_from([1, 2, 3]))
+        lo = [draw(st.integers(0, s - 1)) for s in spatial]
+        hi = [min(s, a + 1) for a, s in zip(lo, spatial)]
+        frames.append([{"label": lab, "box": [lo, hi]}])
+        nodes.append({"id": 400 + 2 * t, "t": t, "seg_id": lab, "parent": None if t == 0 or draw(st.booleans()) else 400 + 2 * (t - 1)})
+    return {"spatial": list(spatial), "frames": frames, "nodes": nodes, "mode": "tiff_dir", "dtype": "uint16",
+            "pad": draw(st.sampled_from([0, 0, 2, 3])), "prefix": draw(st.sampled_from(["frame_", "t", "seg"]))}
+
+
+def probe_tiff_dir(inp) -> ProbeResult:
+    import shutil
+    import tempfile
+    from pathlib import Path
+
+    import pandas as pd
+    import tifffile
+
+    from funtracks.import_export import CSVTracksBuilder
+
+    res = ProbeResult()
+    seg = _build(inp)
+    src = seg.copy()
+    exp, off = _expected(inp, src)
+    rows = [{"t": n["t"], "id": n["id"], "parent_id": -1 if n["parent"] is None else n["parent"], "seg_id": n["seg_id"]}
+            for n in inp["nodes"]]
+    tmp = Path(tempfile.mkdtemp(prefix="verif-c13-"))
+    try:
+        d = tmp / "seg"
+        d.mkdir()
+        for t in range(seg.shape[0]):
+            name = f"{inp['prefix']}{t:0{inp['pad']}d}.tif" if inp["pad"] else f"{inp['prefix']}{t}.tif"
+            tifffile.imwrite(d / name, seg[t])
+        b = CSVTracksBuilder()
+        df = pd.DataFrame(rows)
+        b.read_header(df)
+        b.node_name_map = {"time": "t", "id": "id", "parent_id": "parent_id", "seg_id": "seg_id"}
+        with warnings.catch_warnings():
+            warnings.simplefilter("ignore")
+            tracks = b.build(df, segmentation=d)
+    except Exception as e:  # noqa: BLE001
+        res.fail(f"exception:{type(e).__name__}", f"import with a TIFF-directory segmentation raised {e!r}")
+        return res
+    finally:
+        shutil.rmtree(tmp, ignore_errors=True)
+    got = np.asarray(tracks.segmentation)
+    dmsg = _diff(got, exp) if got.shape == exp.shape else f"shape {got.shape} != {exp.shape}"
+    if dmsg:
+        res.fail("pixels:tiff_dir", f"{seg.shape[0]} frames, pad={inp['pad']}: {dmsg}")
+    res.tags.append("c13:tiff_dir")
+    if seg.shape[0] > 10 and not inp["pad"]:
+        res.tags.append("c13:tiff_dir_unpadded_over_10_frames")
+    res.nontrivial = ("tiff_dir", seg.shape[0], inp["pad"], tuple(n["seg_id"] for n in inp["nodes"]))
+    return res
+
+
 PARTS = [
     Part("relabel", inputs(), probe_relabel, quick=6000, thorough=60000),
     Part("from_df", inputs(with_df=True), probe_from_df, quick=1500, thorough=20000),
+    Part("tiff_dir", tiff_inputs(), probe_tiff_dir, quick=160, thorough=1600, shrink=False),
 ]
 
 
